@@ -550,7 +550,7 @@ func init() {
 		if s, ok := v.v.(StrV); ok && v.t != nil && isString(v.t) {
 			rope := StrV{segs: []Seg{{op: "jsonstr", args: []Value{s}}}}
 			id := st.alloc(nil, StructV{f: []Value{rope}})
-			setRes(st, res, TupleV{RopeRef{buf: PtrV{obj: id}, n: -1}, IfaceV{}})
+			setRes(st, res, TupleV{RopeRef{buf: PtrV{obj: id}, n: -1, snap: rope}, IfaceV{}})
 			return true
 		}
 		fail("encoding/json.Marshal of %v is not modelled (reflection)", v.t)
